@@ -191,7 +191,10 @@ pub fn run(ctx: &Ctx) -> Report {
                 b => *b,
             };
             rep.count("pairs.ratio_with_exact_zeros");
-            (prefix.iter().enumerate().map(|(k, v)| z(k, v)).collect::<Vec<In>>(), suffix_ext.iter().enumerate().map(|(k, v)| z(k + 1, v)).collect::<Vec<In>>())
+            // in half of these pairs the oldest element of the suffix (the reference price of the first
+            // compared output) is itself a zero
+            let off = if r % 2 == 0 { 2 } else { 1 };
+            (prefix.iter().enumerate().map(|(k, v)| z(k, v)).collect::<Vec<In>>(), suffix_ext.iter().enumerate().map(|(k, v)| z(k + off, v)).collect::<Vec<In>>())
         } else if !bars && r % 5 == 4 {
             let shift = level * 40.0;
             let f = |v: &In| match v {
